@@ -131,8 +131,17 @@ def mutate(r, b):
             del b[i:]
         elif k < 0.9:
             b[i:i] = b[i:i + r.randint(1, 20)] * r.randint(2, 50)
-        else:
+        elif k < 0.96:
             b[i:i] = r.choice([b'{5}', b'{3+}\r\nabc', b'"', b'(' * 50, b' ' * 30, b'A' * 20000])
+        else:
+            # a run of digits grows beyond anything a number type holds; a run of wildcards, beyond what a backtracking matcher survives
+            import re as _re
+            m = list(_re.finditer(rb'\d+', bytes(b)))
+            if m and r.random() < 0.7:
+                mm = r.choice(m)
+                b[mm.start():mm.end()] = r.choice([b'9' * 25, b'9' * 4400, b'0' * 5000 + b'1', b'4294967296', b'18446744073709551616'])
+            else:
+                b[i:i] = r.choice([b'*a' * 12 + b'*b', b'%a' * 12 + b'%b', b'*%' * 20])
     return bytes(b)
 
 
@@ -247,7 +256,13 @@ def _tagged(raw, tag):
     return any(l.startswith(tag + b' OK') or l.startswith(tag + b' NO') or l.startswith(tag + b' BAD') for l in raw.split(b'\r\n'))
 
 
-CORPUS = [b'LIST "" "&2D3eA-"', b'LSUB "" "&AOk"', b'LIST "&AOk" *', b'SELECT "&"', b'SELECT "x&y"', b'STATUS "&AOk" (MESSAGES)', b'CREATE "a/b/c/d"', b'CREATE "p/q"', b'RENAME "p/q" "p/q/r"',
+N5K = b'9' * 5000
+CORPUS = [b'FETCH ' + N5K + b' FLAGS', b'SEARCH LARGER ' + N5K, b'FETCH 1 BODY[]<' + N5K + b'.1>', b'FETCH 1 BODY[' + N5K + b']', b'UID FETCH 1:' + N5K + b' FLAGS', b'APPEND INBOX {' + N5K + b'+}',
+          b'SEARCH 1:' + N5K, b'STORE ' + N5K + b' +FLAGS (\\Seen)', b'SEARCH CHARSET "\xff" ALL', b'SEARCH CHARSET {1+}\r\n\x00 ALL', b'SEARCH CHARSET unicode_escape HEADER "\\\\ud800" x',
+          b'SEARCH CHARSET utf-16 SUBJECT "ab"', b'SEARCH CHARSET utf-7 SUBJECT "+2AA-"', b'SEARCH CHARSET idna FROM "xn--"', b'SEARCH CHARSET rot13 BODY x', b'SEARCH CHARSET hex BODY zz',
+          b'CREATE "&2AA-"', b'LIST "" *', b'CREATE "&2ADcAA-"', b'CREATE "&3AA-"', b'LIST "" "&2AA-"', b'SELECT "&2AA-"', b'RENAME INBOX "&2AA-"', b'LIST "" *',
+          b'CREATE ' + b'a' * 60, b'LIST "" "*a*a*a*a*a*a*a*a*a*b"', b'LIST "" "%a%a%a%a%a%a%a%a%a%b"', b'LSUB "*a*a*a*a*a*a*a*a*" "*a*a*a*a*b"', b'LIST "" ' + b'*' * 2000 + b'b',
+          b'LIST "" "&2D3eA-"', b'LSUB "" "&AOk"', b'LIST "&AOk" *', b'SELECT "&"', b'SELECT "x&y"', b'STATUS "&AOk" (MESSAGES)', b'CREATE "a/b/c/d"', b'CREATE "p/q"', b'RENAME "p/q" "p/q/r"',
           b'RENAME INBOX "moved"', b'FETCH 1 (FLAGS)', b'SEARCH SUBJECT "\xff"', b'SEARCH CHARSET utf-8 SUBJECT {2+}\r\n\xc3\x28', b'SEARCH NOT NOT NOT SEEN', b'CREATE "."', b'DELETE ".."', b'CREATE ""',
           b'APPEND INBOX (\\Seen) " 1-Jan-2020 10:00:00 +0000" {3+}\r\nabc', b'UID SEARCH 1:*',
           b'SEARCH CHARSET UTF-8 HEADER "S\xc3\xbcbject" x', b'SEARCH ' + b'(' * 400 + b'ALL' + b')' * 400, b'SEARCH ' + b'OR ALL ' * 600 + b'ALL', b'SEARCH ' + b'NOT ' * 3000 + b'ALL',
